@@ -298,8 +298,7 @@ Section Injective.
   Qed.
 
   (* file outputs, guarded: the content always comes back; the exec bit only when the path already
-     carries it (or none is wanted and the path is absent); the parent directory must exist and no
-     directory may sit at the path *)
+     carries it (or none is wanted and the path is absent); no directory may sit at the path *)
   Theorem file_roundtrip_guarded c x st dest :
     cas_sound H st ->
     file_restore_possible dest = true ->
@@ -309,6 +308,7 @@ Section Injective.
   Proof.
     intros Hs Hp Hx. unfold file_write, file_load, dig. simpl.
     destruct dest as [| |c' x'|es]; simpl in *; try discriminate.
+    - rewrite (cas_written_get c st Hs). subst; reflexivity.
     - rewrite (cas_written_get c st Hs). subst; reflexivity.
     - subst x'. destruct (str_eqb (H c') (H c)) eqn:E.
       + apply str_eqb_eq, H_inj in E. subst; reflexivity.
@@ -323,6 +323,7 @@ Section Injective.
   Proof.
     intros Hs Hp. unfold file_write, file_load, dig. simpl.
     destruct dest as [| |c' x'|es]; simpl in *; try discriminate.
+    - rewrite (cas_written_get c st Hs). reflexivity.
     - rewrite (cas_written_get c st Hs). reflexivity.
     - destruct (str_eqb (H c') (H c)) eqn:E.
       + apply str_eqb_eq, H_inj in E. subst; reflexivity.
@@ -675,12 +676,15 @@ Theorem file_roundtrip_refuted_exec :
     file_load Hid d st' dest <> Done (File c x) /\ file_load Hid d st' dest = Done (File c false) /\ x = true /\ dest = DAbsent.
 Proof. exists (s1 "x"), true, [], DAbsent. vm_compute. repeat split; congruence. Qed.
 
-(* a restore into a path whose parent directory is missing fails *)
-Theorem file_roundtrip_refuted_parent :
-  exists c x st,
-    let '(st', d) := file_write Hid c x st in
-    file_load Hid d st' DParentAbsent = Error.
-Proof. exists (s1 "x"), false, []. vm_compute. reflexivity. Qed.
+(* (until bb649a3 a restore into a path whose parent directory is missing failed; the code now
+   creates the parent, the model follows, and the case is covered by file_roundtrip_guarded) *)
+Theorem file_roundtrip_parent_absent :
+  forall c st, cas_sound Hid st ->
+    let '(st', d) := file_write Hid c false st in
+    file_load Hid d st' DParentAbsent = Done (File c false).
+Proof.
+  intros c st Hs. apply (file_roundtrip_guarded Hid (fun x y E => E) c false st DParentAbsent Hs); reflexivity.
+Qed.
 
 (* a restore over a directory sitting at the path fails *)
 Theorem file_roundtrip_refuted_directory :
